@@ -14,6 +14,7 @@ func All() map[string]func() *engine.Scenario {
 		"C09": C09,
 		"C10": C10,
 		"C12": C12,
+		"C13": C13,
 		"C14": C14,
 	}
 }
